@@ -575,6 +575,8 @@ def stratify_large(shapes, L, I):
     order = sorted(shapes, key=lambda s: (-n_ranks(s), -len(repr(s)), repr(s)))
     for s in order:
         for f in features(s, L, I):
+            if f in ('depth4', 'two_nonfirst_steps_first_leaf_1', 'nonfirst_bottom_first_leaf_1'):
+                continue        # deep features: the SMALLEST shape having them is what the quick cores take
             core.setdefault(f, s)
     out = []
     for f in sorted(core):
